@@ -64,7 +64,7 @@ impl<M: MemBuilder> AnyVecRaw<M> {
         let mut cloned = self.clone_empty();
 
         // 2. allocate
-        cloned.mem.expand(self.len);
+        cloned.reserve(self.len);
 
         // 3. copy/clone
         {
